@@ -1076,6 +1076,10 @@ def clht_models(ctx, prop):
             raise Inconclusive("TLC reports %s in CLHT family %s/%s with the code's design switches: the specification misrepresents the code or the design is broken; "
                                "not a verdict about the code (real-code histories decide)\n%s" % (r["violated"], name, variant, r["out"][-2500:]))
         ctx.add_model("CLHT/%s/%s" % (variant, name), r)
+    if sel:
+        ctx.cov["exhaustive"] = True
+        ctx.cov["exhaustive_scope"] = (ctx.cov.get("exhaustive_scope", "") + " | TLC exhaustive: CLHT.tla scenario families (3 threads, <= 2 calls each, <= 4 keys, 2 slots per bucket, 1-2 root buckets "
+                                       "growing to 4, scaled thresholds): every interleaving of the labelled steps; the real-code exploration is seeded, not exhaustive").strip(" |")
     if prop == "C13" and ctx.thorough:
         # liveness under weak fairness: every call eventually returns (no livelock in the retry loops, no lost wake-up)
         for (variant, name) in (("MapOf", "S7-clear-vs-grow"), ("Map", "S5-shrink"), ("Map", "S4-grow")):
@@ -1126,6 +1130,8 @@ def cacheimpl_models(ctx, prop):
         ctx.add_model("CacheImpl/" + name, r)
         ctx.cov["tlc_models"][-1]["terminal_histories_accepted_by_CacheLin"] = len(runs)
         ctx.cov["transitions"] += st["generated"]
+        ctx.cov["exhaustive"] = True
+        ctx.cov["exhaustive_scope"] = (ctx.cov.get("exhaustive_scope", "") + " | TLC exhaustive: CacheImpl.tla families (3 threads, <= 2 cache calls each over an atomic map, 2 keys, frozen clock)").strip(" |")
 
 
 _o2, _o6, _o5b = CHECKS["C02"], CHECKS["C06"], CHECKS["C05"]
